@@ -146,8 +146,8 @@ Section Converge.
       nth_error C j = Some p -> nth_error C (Datatypes.S j) = Some b ->
       replay (firstn j C) = Ok (u, a) ->
       VBLOCK (mkC (firstn (Datatypes.S j) C) u a) b (b_ts p) now = Ok tt.
-  Proof using value_fn addr_of sig_ok Se.
-    split.
+  Proof.
+    clear H. split.
     - intros Hpv j p b u a Hp Hb Hr.
       destruct (nth_error_split C j Hp) as (X & T0 & E & Hlen).
       assert (ET : exists T, T0 = b :: T).
